@@ -163,23 +163,39 @@ def validate_traces(base, varnames, traces, actions, cfg_consts='', initpred='In
     chunks = [list(range(i, len(traces), nproc)) for i in range(nproc)]
     t0 = time.time()
 
-    def one(ci):
-        idx = chunks[ci]
-        mods, name = _trace_modules(base, varnames, [traces[i] for i in idx], initpred, actions,
-                                    'c%d' % ci, invs)
+    import re
+
+    def run_batch(idx, tag):
+        """validate traces[idx]; a TLC evaluation error (the recorded values have a shape the spec
+        cannot even compare) is narrowed down by bisection and counts as a rejection of that trace"""
+        mods, name = _trace_modules(base, varnames, [traces[i] for i in idx], initpred, actions, tag, invs)
         mods[name + '.cfg'] = mods[name + '.cfg'] + cfg_consts
         if extra:
             mods.update(extra)
-        res, _ = tlc.run(name, name + '.cfg', workers=1, gc='serial', timeout=timeout, extra=mods)
+        try:
+            res, _ = tlc.run(name, name + '.cfg', workers=1, gc='serial', timeout=timeout, extra=mods)
+            bad = res.violation and res.violation[0] != 'postcondition'
+        except tlc.TLCError as ex:
+            if 'Parsing or semantic analysis failed' in str(ex) or 'timeout' in str(ex):
+                raise
+            res, bad = None, True
         rej = []
-        import re
-        for m in re.finditer(r'<<"REJECTED", (\d+), (\d+), (\d+)>>', res.out):
-            rej.append((idx[int(m.group(1)) - 1], int(m.group(2)), int(m.group(3))))
-        if res.violation and res.violation[0] != 'postcondition' and not rej:
-            raise Machinery('trace validation run failed: %s\n%s' % (res.violation, res.out[-2000:]))
-        if not res.ok and not rej:
+        if res is not None:
+            for m in re.finditer(r'<<"REJECTED", (\d+), (\d+), (\d+)>>', res.out):
+                rej.append((idx[int(m.group(1)) - 1], int(m.group(2)), int(m.group(3))))
+        if bad and not rej:
+            if len(idx) == 1:
+                return [(idx[0], 0, len(traces[idx[0]]))], 0, 0
+            h = len(idx) // 2
+            a = run_batch(idx[:h], tag + 'a')
+            b = run_batch(idx[h:], tag + 'b')
+            return a[0] + b[0], a[1] + b[1], a[2] + b[2]
+        if res is not None and not res.ok and not rej:
             raise Machinery('trace validation: TLC not ok but no rejection printed\n' + res.out[-2000:])
         return rej, res.generated, res.distinct
+
+    def one(ci):
+        return run_batch(chunks[ci], 'c%d' % ci)
     with ThreadPoolExecutor(nproc) as ex:
         outs = list(ex.map(one, range(nproc)))
     rejected = sorted(r for o in outs for r in o[0])
